@@ -41,6 +41,26 @@ CLAIMS["C17"] = dict(
     note="Delegate outcomes are an assumed enumeration; random.random in [0,1); message texts not decided.",
     design="§4 C17",
 )
+CLAIMS["C05"] = dict(
+    text="Proofs for the iteration-based loop control (class invariant, sample type, progress in (0,1] ending at 1), the time-period control (warm-up/completion boundaries, equality left open as the statement allows), the schedule generator ScheduleHandle.__call__ with a loop invariant over the ghost sequence of yields (exactly warmup+iterations requests unless the parameter source is exhausted, first W flagged warm-up, progress (k+1)/(W+N), scheduled times non-decreasing), deterministic pacing (wait == weight*clients/target via UnitAwareScheduler.after_request + DeterministicScheduler), ramp-up wait, requires_time_period_schedule and schedule_for (choice and parameters of the loop control).",
+    note="Exact-real arithmetic; every scheduler's next(c) >= c is assumed inside the generator (proved for the deterministic one); Poisson shape, throughput-string regex and the time-period branch of the generator are not decided.",
+    design="§4 C05",
+)
+CLAIMS["C06"] = dict(
+    text="Proof of the conservation law of ThroughputCalculator.calculate_task_throughput with a ghost prefix-sum list: after every call total_count + ops(unprocessed) equals all operations handed in so far, unprocessed is exactly the not-yet-bucketed suffix of the batch (each sample once, in order); emitted values are non-negative, their sample types never decrease, and with positive elapsed time the task has a value for its current sample type. Loop invariant, frame obligations for every heap write.",
+    note="Exact reals; SampleType as ints 0/1; calculate()'s grouping/sorting and map_task_throughput not yet under contract. One genuine defect (double counting of carried-over samples) was found by this check and repaired by a fix: commit.",
+    design="§4 C06",
+)
+CLAIMS["C11"] = dict(
+    text="Proofs for the three filter predicates (name equality, operation type equality, tag LIST membership), Task.__init__ tag normalisation (always a list), Parallel.matches (any sub-task) and the decision function _filter_out_match (include: out iff no filter selects; exclude: leaf out iff selected, parallel never dropped whole). The structural function on_after_load_track and filter parsing are covered by a BOUNDED stand-in only (exhaustive small schedules x filters on the real code, incl. driver allocation of the result).",
+    note="The bounded part (<=3 elements, parallels of 1-2 leaves, 1-2 filters) is labelled bounded in evidence and not counted as proved. One genuine defect (emptied parallel element left in the schedule) was found by it and repaired by a fix: commit.",
+    design="§4 C11",
+)
+CLAIMS["C18"] = dict(
+    text="Proof, with the ContextVar binding as ghost state, that update_request_start/end keep the earliest start / latest end and ignore None, that RequestContextManager.__exit__ restores the parent's record, propagates min(start)/max(end) of the child into the parent, leaves the child's own timing untouched and propagates nothing at top level, and that on_request_start/end record the clock value; call-site obligations for the aiohttp trace-hook wiring. Closing sub-request contexts in any order therefore yields (min,max) at the root.",
+    note="contextvars semantics assumed (each asyncio task has its own binding; dicts shared by reference). One genuine defect (first start / last-written end instead of min/max, None pushed into the parent) was found by this check and repaired by a fix: commit. RequestTiming/Composite not yet under contract.",
+    design="§4 C18",
+)
 NA_DEFAULT = "check not built yet in this revision (the framework is under construction; see DESIGN.md §6b build order)"
 checks = []
 for p in props:
